@@ -287,6 +287,9 @@ class C12(Prop):
              'env': rng.choice([None, {'GLOBAL': 'g1'}]), 'edit': 'initial'}
         for w0 in v['watchers']:
             if rng.random() < 0.15:
+                w0['env'] = rng.choice([{'LOGS': '$HOME/logs'},
+                                        {'A': '1', 'B': '$PATH:/x'}])
+            if rng.random() < 0.15:
                 # defined but not to be started by the daemon
                 w0['opts']['autostart'] = 'False'
             if rng.random() < 0.2:
@@ -392,6 +395,10 @@ class C12(Prop):
                                        {'A': '1', 'B': 'x y'},
                                        # names the daemon's own environment
                                        # has as well
+                                       # values that refer to the daemon's
+                                       # environment (expanded when read)
+                                       {'LOGS': '$HOME/logs'},
+                                       {'LOGS': '$HOME/logs', 'A': '$PATH'},
                                        {'PATH': '/opt/one:/usr/bin'},
                                        {'PATH': '/opt/two:/usr/bin'},
                                        {'HOME': '/h1', 'A': '1'}])
